@@ -97,6 +97,11 @@ def gen_case(seed, tier):
     op = gen_target_op(rng, target, keys, big_n, bulk)
     if op.get('op') == 'check':
         setup.append({'op': 'damage'})      # an unknown file in every database directory: a complete report is never empty
+    if target in ('cache', 'fanout', 'django') and settings.get('eviction_policy') != 'none' and rng.random() < 0.15:
+        # a cache that has reached its size limit (the normal state of a long-lived one): every write also evicts
+        # (not for the recipes: their keys are documented to need a cache that does not evict them)
+        settings['cull_limit'] = rng.choice((1, 2))
+        setup.append({'op': 'reset', 'key': 'size_limit', 'value': 'volume'})
     hold = rng.choice(('short', 'long', 'long'))
     dur = timeout * rng.choice((0.1, 0.5)) if hold == 'short' else timeout * rng.choice((1.5, 3.0, 7.5))
     if hold == 'long' and timeout <= 0.05 and rng.random() < 0.15:
